@@ -540,4 +540,254 @@ def rule_fold_zeros(P):
     return R
 
 
-RULES = [rule_next_level, rule_terminal_type, rule_index_kind, rule_fold_zeros]
+def rule_card_skipped(P):
+    """cardinality: a level the diagram skips multiplies the count by the size of *that* level — except a primed level skipped in an
+    identity-reduced relation forest (one matching value, not all) — and the recursion continues with the same node one level down"""
+    R = RuleResult("card.skipped-levels", "in every instantiation of card_templ::_compute: when the node is below the current level the fold recurses on the same node at the next level and scales the count by getLevelSize(current level) on every path except primed levels of identity-reduced forests; level 0 counts 1")
+    n = 0
+    for f in sorted(P.fns.values(), key=lambda f: (f["file"], f["line"], f["inst"])):
+        if not f.get("cfg") or f["file"] != "operations/cardinality.cc" or not f["q"].endswith("::_compute") or "card_templ" not in f["q"]:
+            continue
+        ps = f.get("params", [])
+        if len(ps) < 3:
+            continue
+        lv, nd, rs = ps[0]["name"], ps[1]["name"], ps[2]["name"]
+        g = Graph(f)
+        n += 1
+        R.functions.add(f["inst"])
+        inst = f["inst"].replace(M, "")[:60]
+        skip = [b for b in g.nodes if b.kind == "branch" and b.cond and len(b.succ) == 2 and b.cond.get("op") == "!=" and any(c.endswith("getNodeLevel") for c in b.cond["calls"])
+                and re.search(r"(?<!\w)%s(?!\w)" % lv, b.cond["text"])]
+        if not skip:
+            raise AnalysisBroken("card.skipped-levels: no `getNodeLevel(%s) != %s` test in %s" % (nd, lv, f["inst"]))
+        b = skip[0]
+        ti = 1 if b.cond.get("neg") else 0
+        arm = g.reach([s_ for s_, i in b.succ if i == ti], avoid=lambda k: k.kind == "ret")
+        other = g.reach([s_ for s_, i in b.succ if i != ti])
+        only = arm - other
+        rec = [k for k in g.nodes if k.id in only and k.kind == "call" and k.ev["q"] == f["q"]]
+        nextl = {k.ev["var"] for k in g.nodes if k.kind == "ldef" and DISPATCH.search(_nz(k.ev.get("rhs", ""))) and DISPATCH.search(_nz(k.ev["rhs"])).group(1) == lv}
+        iid = "%s: skipped level recurses on the same node at the next level" % inst
+        R.paths += 1
+        if len(rec) == 1 and _nz(rec[0].ev["args"][0]) in nextl and _nz(rec[0].ev["args"][1]) == nd and _nz(rec[0].ev["args"][2]) == rs:
+            R.ok(iid, where(f, rec[0].line))
+        else:
+            R.fail(iid, where(f, b.line), Finding(R.rule, f["file"], base_name(f["q"]), "skip-recursion", "on the skipped-level path the fold must call itself with (next level of %s, %s, %s); found %s" % (
+                lv, nd, rs, [k.ev["args"] for k in rec]), b.line, inst=f["inst"]))
+            continue
+        scale = [k for k in g.nodes if k.id in only and k.kind == "call" and k.ev["q"].endswith("::scaleBy")]
+        iid = "%s: count scaled by the size of the skipped level" % inst
+        R.paths += 1
+        want = "argF->getLevelSize(%s)" % lv
+        if scale and all(_nz(k.ev["args"][0]) == rs and _nz(k.ev["args"][1]) == want for k in scale):
+            R.ok(iid, where(f, scale[0].line))
+        else:
+            R.fail(iid, where(f, b.line), Finding(R.rule, f["file"], base_name(f["q"]), "scale-arg", "expected scaleBy(%s, %s) on the skipped-level path, found %s" % (rs, want, [k.ev["args"] for k in scale]), b.line, inst=f["inst"]))
+            continue
+        # the only way around the scaling: not (L>0) and identity reduced
+        is_ret = lambda k: k.kind == "ret" or k.id == g.exit
+        pos = [k for k in g.nodes if k.id in only and k.kind == "branch" and k.cond and _nz(k.cond["text"]) in ("%s>0" % lv, "0<%s" % lv)]
+        idr = [k for k in g.nodes if k.id in only and k.kind == "branch" and k.cond and any(c.endswith("isIdentityReduced") for c in k.cond["calls"])]
+        iid = "%s: the scaling is skipped only for a primed level of an identity-reduced forest" % inst
+        R.paths += 1
+        bad = None
+        scale_ids = {k.id for k in scale}
+        around = lambda ae: g.path(rec[0], is_ret, avoid=lambda k: k.id in scale_ids, avoid_edge=ae)
+        if around(None) is None:
+            bad = "the count is scaled even at primed levels of identity-reduced forests"
+        elif len(pos) != 1 or len(idr) != 1:
+            raise AnalysisBroken("card.skipped-levels: the scaling in %s can be skipped, but the guards `%s>0` / `isIdentityReduced()` are not in a form this rule reads" % (f["inst"], lv))
+        else:
+            pt = 1 if pos[0].cond.get("neg") else 0           # edge index on which L>0 holds
+            ident_edge = 1 if idr[0].cond.get("neg") else 0   # edge on which isIdentityReduced() holds (edge 0 = the condition as written is true)
+            if around(lambda k, i: k.id == pos[0].id and i != pt) is not None:
+                bad = "the scaling can be skipped although %s > 0" % lv
+            elif around(lambda k, i: k.id == idr[0].id and i == ident_edge) is not None:
+                bad = "the scaling can be skipped in a forest that is not identity reduced"
+        if bad is None:
+            R.ok(iid, where(f, scale[0].line))
+        else:
+            R.fail(iid, where(f, scale[0].line), Finding(R.rule, f["file"], base_name(f["q"]), "scale-guard", bad, scale[0].line, inst=f["inst"]))
+        # level 0 counts one
+        z = [k for k in g.nodes if k.kind == "branch" and k.cond and _nz(k.cond["text"]) in ("0==%s" % lv, "%s==0" % lv)]
+        iid = "%s: level 0 (below all variables) counts 1" % inst
+        R.paths += 1
+        okz = False
+        if z:
+            k = g.nodes[[s_ for s_, i in z[0].succ if i == (1 if z[0].cond.get("neg") else 0)][0]]
+            for _ in range(4):
+                if k.kind == "call" and k.ev["q"].endswith("::set") and [_nz(a) for a in k.ev["args"]] == [rs, "1"]:
+                    okz = True
+                if len(k.succ) != 1:
+                    break
+                k = g.nodes[k.succ[0][0]]
+        (R.ok(iid, where(f, z[0].line)) if okz else R.fail(iid, where(f), Finding(R.rule, f["file"], base_name(f["q"]), "level0", "no `0==%s → set(%s, 1)` terminal case" % (lv, rs), f["line"], inst=f["inst"])))
+    if n < 3:
+        raise AnalysisBroken("card.skipped-levels: expected the 3 instantiations of card_templ::_compute, found %d" % n)
+    R.require_floor(12, "cardinality obligations")
+    return R
+
+
+def rule_mark_once(P):
+    """reachable-node marking behind node/edge counts, display and file output: a node is queued only when it is a non-terminal that is not yet
+    marked, and it is marked before it is queued (so every reachable node is explored exactly once); the two edge counters unpack the way they count"""
+    R = RuleResult("mark.explore-once", "node_marker::addToQueue queues a handle only across the true edges of `p>0` and `!marked.get(p)` and after marked.set(p,true); the packed-node walker offers every stored child; countEdges unpacks FULL, countNonzeroEdges SPARSE, both summing getSize() over the marked nodes")
+    fs = P.by_q.get(M + "node_marker::addToQueue", [])
+    if not fs or not fs[0].get("cfg"):
+        raise AnalysisBroken("mark.explore-once: node_marker::addToQueue not found")
+    f = fs[0]
+    g = Graph(f)
+    R.functions.add(f["inst"])
+    push = [k for k in g.nodes if k.kind == "call" and k.ev["q"].endswith("::push_back")]
+    if len(push) != 1:
+        raise AnalysisBroken("mark.explore-once: expected one push_back in addToQueue")
+    hp = f["params"][0]["name"]
+    tgt = lambda k: k.id == push[0].id
+    def guard(pred, what, sink):
+        bs = [b for b in g.nodes if b.kind == "branch" and b.cond and len(b.succ) == 2 and pred(b)]
+        iid = "addToQueue: queued only when %s" % what
+        R.paths += 1
+        ok = False
+        for b in bs:
+            te = 1 if b.cond.get("neg") else 0     # edge on which the un-negated atom holds
+            want = te if not _nz(b.cond["text"]).startswith("!") else 1 - te
+            if pred is is_marked:
+                want = 1 - te                     # we need the edge on which marked.get() is FALSE
+            if g.path(g.entry, tgt, avoid_edge=lambda k, i, b=b, want=want: k.id == b.id and i == want) is None:
+                ok = True
+        (R.ok(iid, where(f, push[0].line)) if ok else R.fail(iid, where(f, push[0].line), Finding(R.rule, f["file"], base_name(f["q"]), sink,
+             "a handle can be queued without %s: terminals / already explored nodes are explored (again), counts and output repeat or walk garbage" % what, push[0].line)))
+    is_pos = lambda b: _nz(b.cond["text"]) in ("%s>0" % hp, "0<%s" % hp)
+    is_marked = lambda b: any(c.endswith("bitvector::get") for c in b.cond["calls"])
+    guard(is_pos, "the handle is a non-terminal (%s>0)" % hp, "guard-positive")
+    guard(is_marked, "the node is not marked yet", "guard-unmarked")
+    iid = "addToQueue: marked before queued"
+    R.paths += 1
+    setm = lambda k: k.kind == "call" and k.ev["q"].endswith("bitvector::set") and len(k.ev["args"]) == 2 and _nz(k.ev["args"][1]) == "true" and hp in k.ev["args"][0]
+    if g.path(g.entry, tgt, avoid=setm) is None:
+        R.ok(iid, where(f, push[0].line))
+    else:
+        R.fail(iid, where(f, push[0].line), Finding(R.rule, f["file"], base_name(f["q"]), "mark-before-queue", "a handle is queued without being marked: a node reachable along two paths is explored twice and shared structure is counted twice", push[0].line))
+    # the packed-node walker offers every stored child
+    for f2 in P.fns.values():
+        if f2["q"].endswith("::addDownToQueue") and f2.get("cfg") and f2["file"].startswith("storage/"):
+            g2 = Graph(f2)
+            R.functions.add(f2["inst"])
+            calls = [k for k in g2.nodes if k.kind == "call" and k.ev["q"] == M + "node_marker::addToQueue"]
+            loops = [b for b in g2.nodes if b.kind == "branch" and b.cond and b.cond.get("op") == "<" and len(b.succ) == 2]
+            sizes = {k.ev["var"] for k in g2.nodes if k.kind == "ldef" and re.search(r"getSize\(", k.ev.get("rhs", "")) and not k.ev.get("ptr")}
+            iid = "%s: every stored child is offered to the marker" % base_name(f2["q"]).replace(M, "")
+            R.paths += 1
+            ok = len(calls) == 1 and re.fullmatch(r"\w+\[(\w+)\]", _nz(calls[0].ev["args"][0])) and any(
+                _nz(b.cond["r"]["text"] if isinstance(b.cond.get("r"), dict) and "text" in b.cond["r"] else b.cond["text"].split("<")[-1]) in sizes for b in loops)
+            (R.ok(iid, where(f2, calls[0].line if calls else None)) if ok else R.fail(iid, where(f2), Finding(R.rule, f2["file"], base_name(f2["q"]), "walker",
+                 "the walker must call addToQueue(down[i]) for i below the stored size (getSize of the raw size); found calls %s" % [k.ev["args"] for k in calls], f2["line"])))
+    # the two edge counters
+    for name, mode in (("countEdges", "FULL_ONLY"), ("countNonzeroEdges", "SPARSE_ONLY")):
+        fs = P.by_q.get(M + "node_marker::" + name, [])
+        if not fs or not fs[0].get("cfg"):
+            raise AnalysisBroken("mark.explore-once: node_marker::%s not found" % name)
+        f3 = fs[0]
+        g3 = Graph(f3)
+        R.functions.add(f3["inst"])
+        news = [k for k in g3.nodes if k.kind == "call" and k.ev["q"].endswith("unpacked_node::New")]
+        iid = "%s unpacks %s" % (name, mode)
+        R.paths += 1
+        if len(news) == 1 and _nz(news[0].ev["args"][-1]) == mode:
+            R.ok(iid, where(f3, news[0].line))
+        else:
+            R.fail(iid, where(f3), Finding(R.rule, f3["file"], base_name(f3["q"]), "unpack-mode", "%s must unpack its nodes %s (full size = all edges, sparse size = non-zero edges); found %s" % (name, mode, [k.ev["args"] for k in news]), f3["line"]))
+        iid = "%s sums getSize() of every marked node" % name
+        R.paths += 1
+        acc = [k for k in g3.nodes if k.kind == "ldef" and k.ev.get("op") == "+=" and re.search(r"->getSize\(\)$", _nz(k.ev.get("rhs", "")))]
+        scan = [k for k in g3.nodes if k.kind == "ldef" and re.search(r"marked\.firstOne\((\w+)\+1\)", _nz(k.ev.get("rhs", ""))) and re.search(r"marked\.firstOne\((\w+)\+1\)", _nz(k.ev["rhs"])).group(1) == k.ev["var"]]
+        init = [k for k in g3.nodes if k.kind == "call" and k.ev["q"].endswith("unpacked_node::initFromNode") and scan and _nz(k.ev["args"][0]) == scan[0].ev["var"]]
+        if acc and scan and init:
+            R.ok(iid, where(f3, acc[0].line))
+        else:
+            R.fail(iid, where(f3), Finding(R.rule, f3["file"], base_name(f3["q"]), "sum", "expected `i = marked.firstOne(i+1)` scan, initFromNode(i) and `ec += M->getSize()`; found acc=%d scan=%d init=%d" % (len(acc), len(scan), len(init)), f3["line"]))
+    R.require_floor(8, "marking / counting obligations")
+    return R
+
+
+def _index_exprs(text, var):
+    """index expressions of `var[...]` occurrences in text (balanced brackets)"""
+    out = []
+    for m in re.finditer(r"(?<![\w.>])%s\[" % re.escape(var), text):
+        d, j = 1, m.end()
+        while j < len(text) and d:
+            d += text[j] == "["
+            d -= text[j] == "]"
+            j += 1
+        out.append(text[m.end():j - 1])
+    return out
+
+
+def rule_array_extent(P):
+    """level and variable numbers run from 1 to N (0 is the terminal level): an array indexed by them needs N+1 elements"""
+    R = RuleResult("level.array-extent", "a heap array that is indexed by level or variable numbers (values obtained from getVarByLevel / getLevelByVar / getNodeLevel) is allocated with getNumVariables()+1 elements, not getNumVariables()")
+    n = 0
+    seen = set()
+    for f in sorted(P.fns.values(), key=lambda f: (f["file"], f["line"], f["inst"])):
+        if not f.get("cfg") or (f["file"], f["line"]) in seen:
+            continue
+        evs = [e for b in f["cfg"]["blocks"] for e in b["ev"]]
+        news = [e for e in evs if e["k"] == "new" and re.search(r"\[(.+)\]\s*$", e.get("text", ""))]
+        if len(news) != 1:
+            continue
+        seen.add((f["file"], f["line"]))
+        arrays = {e["var"] for e in evs if e["k"] == "astore"} & {re.sub(r"\s+", "", e.get("text", "")) for e in evs if e["k"] == "delete"}
+        if len(arrays) != 1:
+            continue
+        arr = next(iter(arrays))
+        defs = {}
+        for e in evs:
+            if e["k"] == "ldef" and e.get("rhs") and not e.get("ptr") and e.get("op", "=") in ("=", None):
+                defs.setdefault(e["var"], set()).add(_nz(e["rhs"]))
+        ext = _nz(re.search(r"\[(.+)\]\s*$", news[0]["text"]).group(1))
+        def resolve(t, depth=0):
+            t = _strip(t)
+            if re.fullmatch(r"\w+", t) and len(defs.get(t, ())) == 1 and depth < 3:
+                return resolve(next(iter(defs[t])), depth + 1)
+            return t
+        m = re.fullmatch(r"(.+?)\+1|1\+(.+)", ext)
+        base = resolve(m.group(1) or m.group(2)) if m else resolve(ext)
+        if not re.search(r"getNumVariables\(\)$", base):
+            continue
+        extent = "N+1" if m else "N"
+        env = {}
+        ldefs = [e for e in evs if e["k"] == "ldef" and e.get("rhs") and not e.get("ptr")]
+        for _ in range(3):
+            for e in ldefs:
+                k = _kind(e["rhs"], env)
+                if k:
+                    env.setdefault(e["var"], set()).add(k)
+        texts = [e.get("index", "") for e in evs if e["k"] == "astore" and e["var"] == arr]
+        for b in f["cfg"]["blocks"]:
+            if b.get("cond"):
+                texts += _index_exprs(b["cond"]["text"], arr)
+            for e in b["ev"]:
+                if e["k"] == "ldef":
+                    texts += _index_exprs(e.get("rhs", "") or "", arr)
+                elif e["k"] == "call":
+                    for a in e.get("args", []) or []:
+                        texts += _index_exprs(a, arr)
+        kinds = sorted({k for k in (_kind(t, env) for t in texts) if k in ("VAR", "LEVEL")})
+        if not kinds:
+            continue
+        n += 1
+        R.functions.add(f["inst"])
+        R.paths += 1
+        iid = "%s: `%s` indexed by %s numbers has %s elements" % (base_name(f["q"]).replace(M, "")[:70], arr, "/".join(k.lower() for k in kinds), extent)
+        if extent == "N+1":
+            R.ok(iid, where(f, news[0]["line"]))
+        else:
+            R.fail(iid, where(f, news[0]["line"]), Finding(R.rule, f["file"], base_name(f["q"]), "extent:" + arr,
+                   "`%s` is allocated with getNumVariables() elements but indexed by %s numbers, which run from 1 to getNumVariables(): the last element is one past the end (heap overflow; glibc aborts in delete[] when the array has no padding, e.g. 6 variables)" % (arr, "/".join(k.lower() for k in kinds)), news[0]["line"], inst=f["inst"]))
+    if n < 6:
+        raise AnalysisBroken("level.array-extent: expected the 6 reordering heuristics with a transposed-order array, found %d" % n)
+    R.require_floor(6, "arrays indexed by level / variable numbers")
+    return R
+
+
+RULES = [rule_next_level, rule_terminal_type, rule_index_kind, rule_fold_zeros, rule_card_skipped, rule_mark_once, rule_array_extent]
